@@ -1,1 +1,132 @@
-/- property theorems of C20 (only theorems + non-vacuity examples live here) -/
+import Got.Model.Sample
+import Got.Lemmas.Sample
+/-
+C20 — randx.WeightedSampling returns distinct valid indices, weighted correctly.
+(only the property theorems + non-vacuity examples live here)
+
+The theorems are about `Got.Model.Sample.weightedSampling`, the transcription of the loop of
+randx/sample.go on top of the container/heap transcription `Got.Model.GoHeap`.  The float keys are
+INPUTS of the model: `keys` is the list of the `totalNum` keys in loop order, of an arbitrary type `κ`,
+compared by arbitrary Bool-valued functions `less` (heap order) and `gt` (replacement test).
+-/
+open Got.Model Got.Model.Sample Got.Lemmas.Sample Got.Lemmas.GoHeap
+
+/-- VALIDITY, for EVERY key list and EVERY outcome of the comparisons (ties, ±Inf, NaN-like incomparable
+    values, even inconsistent answers), hence for every weight vector and every random draw:
+    with 1 ≤ m ≤ n the call returns (no panic) exactly m pairwise distinct indices in [0, n),
+    and a permutation of 0..n-1 when m = n. -/
+theorem C20_valid {κ : Type} (less gt : κ → κ → Bool) (m : Nat) (keys : List κ) (h1 : 1 ≤ m) (h2 : m ≤ keys.length) :
+    ∃ r, weightedSampling less gt (m : Int) keys = .ok r ∧ r.length = m ∧ r.Nodup ∧ (∀ x ∈ r, x < keys.length) ∧
+      (m = keys.length → r.Perm (List.range keys.length)) := by
+  obtain ⟨h, _, hi, hr⟩ := weightedSampling_ok less gt m keys h1 h2
+  have hlen : (h.toList.map (·.index)).length = m := by
+    simp only [List.length_map, Array.length_toList, hi.size]; omega
+  have hlt : ∀ x ∈ h.toList.map (·.index), x < keys.length := by
+    intro x hx
+    obtain ⟨y, hy, rfl⟩ := List.mem_map.mp hx
+    exact hi.lt y hy
+  refine ⟨_, hr, hlen, hi.nodup, hlt, ?_⟩
+  intro hmn
+  exact perm_range_of_nodup keys.length _ hi.nodup hlt (by rw [hlen, hmn])
+
+/-- TOP-m: if the comparison is a strict total order and the keys are pairwise distinct (the situation with
+    probability 1 for exact real keys u_i^(1/w_i)), the returned indices are exactly those of the m largest keys:
+    every selected key is greater than every non-selected key (with C20_valid: m distinct indices, so this set is
+    THE top-m set).  `gt a b = less b a` is what Go's `>` and `<` on floats satisfy. -/
+theorem C20_top_m {κ : Type} (less gt : κ → κ → Bool) (st : StrictTotal less) (hgt : ∀ a b, gt a b = less b a)
+    (m : Nat) (keys : List κ) (hnd : keys.Nodup) (h1 : 1 ≤ m) (h2 : m ≤ keys.length) :
+    ∃ r, weightedSampling less gt (m : Int) keys = .ok r ∧ r.length = m ∧ r.Nodup ∧
+      ∀ j, j ∈ r → ∀ j', j' < keys.length → j' ∉ r →
+        ∀ kj kj', keys[j]? = some kj → keys[j']? = some kj' → less kj' kj = true := by
+  obtain ⟨h, hl, hi, hr⟩ := weightedSampling_ok less gt m keys h1 h2
+  obtain ⟨h', hl', _, ht⟩ := loop_top less gt st hgt keys hnd m h1 keys 0 #[] (by simp) (by omega) (inv_init m)
+    (top_init less keys)
+  rw [hl] at hl'
+  injection hl' with hl'
+  subst hl'
+  refine ⟨_, hr, by simp only [List.length_map, Array.length_toList, hi.size]; omega, hi.nodup, ?_⟩
+  intro j hj j' hj' hnot kj kj' hkj hkj'
+  obtain ⟨x, hx, hxj⟩ := List.mem_map.mp hj
+  have hxk : x.ki = kj := by
+    have := ht.item x hx
+    rw [hxj, hkj] at this
+    injection this with e
+    exact e.symm
+  rw [← hxk]
+  exact ht.excl j' hj' (fun y hy e => hnot (List.mem_map.mpr ⟨y, hy, e⟩)) kj' hkj' x hx
+
+/-- container/heap, Push: under a strict weak order (asymmetric + negatively transitive `less`, ties allowed) Push
+    keeps the heap invariant "no element is smaller than its parent" and only adds the pushed element -/
+theorem C20_heap_push {α : Type} (less : α → α → Bool) (tp : TotalPreorder less) (a : Array α) (x : α)
+    (hh : IsHeap less a) :
+    IsHeap less (GoHeap.push less a x) ∧ (GoHeap.push less a x).toList.Perm (x :: a.toList) :=
+  ⟨push_heap tp a x hh, push_perm less a x⟩
+
+/-- container/heap, Pop: on a non-empty heap Pop succeeds, returns a MINIMAL element (no element is smaller), removes
+    exactly that element, and leaves a heap -/
+theorem C20_heap_pop {α : Type} (less : α → α → Bool) (tp : TotalPreorder less) (a : Array α) (hh : IsHeap less a)
+    (hne : 0 < a.size) :
+    ∃ x b, GoHeap.pop less a = some (x, b) ∧ IsHeap less b ∧ (∀ y ∈ a.toList, less y x = false) ∧
+      (x :: b.toList).Perm a.toList := by
+  refine ⟨_, _, pop_eq less a hne, ?_⟩
+  obtain ⟨p1, p2, p3, _⟩ := pop_heap tp a hh _ _ (pop_eq less a hne)
+  exact ⟨p1, p2, p3⟩
+
+/-- for an ARBITRARY comparison (no assumption) Push and Pop still only permute: nothing is lost or duplicated -/
+theorem C20_heap_perm {α : Type} (less : α → α → Bool) (a : Array α) (x : α) :
+    (GoHeap.push less a x).toList.Perm (x :: a.toList) ∧
+    (∀ y b, GoHeap.pop less a = some (y, b) → (y :: b.toList).Perm a.toList) ∧
+    (0 < a.size → ∃ y b, GoHeap.pop less a = some (y, b)) :=
+  ⟨push_perm less a x, fun y b h => (pop_perm less a y b h).1, fun h => ⟨_, _, pop_eq less a h⟩⟩
+
+/-- the fuel of the structurally recursive loops is adequate: any larger fuel gives the same result, i.e. the loops
+    of `up` / `down` always end through one of their `break`s, never by running out of fuel -/
+theorem C20_heap_fuel_adequate {α : Type} (less : α → α → Bool) (a : Array α) (j n extra : Nat) :
+    GoHeap.upAux less (j + 1 + extra) a j = GoHeap.up less a j ∧
+    GoHeap.downAux less (n + extra) a j n = GoHeap.downLoop less a j n :=
+  ⟨upAux_fuel less _ _ a j (by omega) (by omega), downAux_fuel less _ _ a j n (by omega) (by omega)⟩
+
+/-- outside 1 ≤ m ≤ n the code panics (explicit argument check, negative capacity, or index out of range for m = 0) -/
+theorem C20_invalid_arguments_panic {κ : Type} (less gt : κ → κ → Bool) (m : Int) (keys : List κ)
+    (h : m < 1 ∨ (keys.length : Int) < m) : ∃ p, weightedSampling less gt m keys = .error p := by
+  unfold weightedSampling
+  split
+  · exact ⟨_, rfl⟩
+  · rename_i hn
+    split
+    · exact ⟨_, rfl⟩
+    · have hm : m = 0 := by omega
+      subst hm
+      cases keys with
+      | nil => simp at hn
+      | cons k ks => exact ⟨.indexRange, by simp [loop, step]⟩
+
+/-- the OLD code (heap pre-filled with `sampleNum` zero items, before fix ed1146e) returns the placeholder index
+    twice when both keys are 0 (what u^(1/w) underflowed to for weights 5e-324): result [0, 0] -/
+theorem C20_old_prefilled_counterexample :
+    weightedSamplingOld (κ := Int) (fun a b => decide (a < b)) (fun a b => decide (a > b)) 0 2 [0, 0] = .ok [0, 0] := by
+  decide
+
+/-- and with three keys 0, the old code never reports index 1 or 2 at all -/
+theorem C20_old_prefilled_counterexample_placeholder :
+    weightedSamplingOld (κ := Int) (fun a b => decide (a < b)) (fun a b => decide (a > b)) 0 2 [0, 0, 0] = .ok [0, 0] := by
+  decide
+
+/-! non-vacuity: the hypotheses of C20_top_m / C20_heap_* are satisfiable -/
+
+/-- `<` on Int is a strict total order … -/
+example : StrictTotal (fun a b : Int => decide (a < b)) :=
+  ⟨fun a b h => by simp at h ⊢; omega, fun a b c h1 h2 => by simp at h1 h2 ⊢; omega,
+   fun a b => by simp only [decide_eq_true_eq]; omega⟩
+/-- … and the rank comparison used by the driver is a strict weak order on the non-NaN ranks -/
+example : TotalPreorder (fun a b : Int => decide (a < b)) :=
+  ⟨fun a b h => by simp at h ⊢; omega, fun a b c h1 h2 => by simp at h1 h2 ⊢; omega⟩
+example : IsHeap (fun a b : Int => decide (a < b)) #[1, 3, 2, 3] := by
+  intro k hk _ h0
+  have : k = 1 ∨ k = 2 ∨ k = 3 := by simp at hk; omega
+  rcases this with rfl | rfl | rfl <;> rfl
+
+/-! sanity: concrete runs of the current model -/
+example : weightedSampling (κ := Int) (fun a b => decide (a < b)) (fun a b => decide (a > b)) 2 [0, 0] = .ok [0, 1] := by decide
+example : weightedSampling rankLess rankGt 2 [some 3, some 1, some 2] = .ok [2, 0] := by decide
+example : weightedSampling rankLess rankGt 1 [some 1, none, some 5] = .ok [2] := by decide
